@@ -10,7 +10,7 @@ from props import REGISTRY
 
 # tier -> (libFuzzer runs in total, max_len, jobs, rapidcheck cases per shard, rapidcheck max_size, time cap for libFuzzer)
 TIERS = {
-    "quick": (1200000, 192, 16, 2500, 24, None),
+    "quick": (1000000, 192, 16, 2000, 24, None),
     "thorough": (48000000, 512, 16, 80000, 40, 3600),
 }
 
